@@ -16,7 +16,15 @@ Enumerated: baseline + every 1- and 2-dimension deviation (quick: 2-deviations o
 the attachment space (attachment lists x the four structures with attachment slots [x one more deviation in thorough]),
 the full product structure x charset x transfer encoding x line end [x 3 body texts], 4 embedded-message variants of the
 message/rfc822 structure [x one more deviation],
-each as .eml and as single-message mbox in all three separator forms; the From-line variants for all <=1-deviations; all
+the charset family: every charset label (the generator's 5 + the writer's 41 EXTRA_CHARSETS: other single-byte, multibyte 8-bit,
+7-bit stateful iso-2022-jp/-kr, hz, utf-7, wide utf-16/32 with and without BOM, other spellings/case of the labels) x 16 sample
+texts (15 scripts incl. ASCII made of the 7-bit shift characters and non-BMP; "utf8-lookalike" = the text whose bytes in the
+labelled charset are also valid UTF-8 for another text) x 4 transfer encodings, restricted to what the charset can encode and
+the encoding can carry (quick: structure alternative, CRLF; thorough: x 8 structures x 2 line ends); the subject-charset family:
+a subject written as B and as Q encoded-words in every octet charset x every sample (thorough: also with the body in the same
+charset),
+each as .eml and as single-message mbox in all three separator forms (quick: the two charset families as mbox in the standard
+form only); the From-line variants for all <=1-deviations; all
 ordered pairs and triples over a 6-spec alphabet x 9 separator/From-line variants; the empty mailbox.
 
 Oracle (clauses): subject, from, to, cc, bcc, reply_to, date (same instant), message_id, in_reply_to, body_plain, body_html,
@@ -112,6 +120,76 @@ DOM["inner"] = [
     dict(_I0, structure="rfc822-attachment"),
 ]
 
+# ----------------------------------------------------------------------------------------------------------------------
+# charset family: the labels of the writer's EXTRA_CHARSETS (other single-byte, multibyte 8-bit, 7-bit stateful, wide, other
+# spellings) are appended to the C16 copy of the charset domain; BASE_LEN keeps the generator's own domain sizes (the deviation
+# spaces below range over those only).  The pseudo-dimension "text" (index into TEXTS, 0 = the generator's bodies) replaces BOTH
+# bodies by a sample of one script between tokens; a sample that the charset cannot encode makes the spec inexpressible.
+# "utf8-lookalike" is computed from the charset: the text whose bytes in that charset are the UTF-8 bytes of "é ü" (the label
+# alone decides between two valid readings).  "ascii-shift" is ASCII text made of the shift characters of the 7-bit charsets.
+
+BASE_LEN = {k: len(v) for k, v in DOM.items()}
+DOM["charset"] = list(DOM["charset"]) + list(mail.EXTRA_CHARSETS)
+TEXTS = [
+    ("generator", None),
+    ("ascii-shift", "1+1=2 a&b ~x~ +- ~{ }~"),
+    ("western", "café naïve Ünïcödé"),
+    ("euro", "5 € 10 €"),
+    ("typographic", "— “x” … ™"),
+    ("central", "Zażółć gęślą jaźń"),
+    ("cyrillic", "Привет, мир"),
+    ("greek", "Γειά σου Κόσμε"),
+    ("hebrew", "שלום עולם"),
+    ("arabic", "مرحبا بالعالم"),
+    ("thai", "สวัสดี"),
+    ("japanese", "こんにちは、世界。カタカナ"),
+    ("hans", "你好，世界"),
+    ("hant", "繁體中文測試"),
+    ("korean", "안녕하세요 세계"),
+    ("nonbmp", "😀 𝄞"),
+    ("utf8-lookalike", None),
+]
+DOM["text"] = [t[0] for t in TEXTS]
+_LOOKALIKE_SRC = "é ü".encode("utf-8")
+_TT = {k: mail._n(k[0]) for k in ("B7", "B8", "B9", "H7", "H8")}            # drawn after every other token of this module
+
+
+def sample_text(ti: int, label: str):
+    """The sample TEXTS[ti] for a part labelled `label` (None: no such text)."""
+    name, t = TEXTS[ti]
+    if name != "utf8-lookalike":
+        return t
+    try:
+        codec = mail.charset_codec(label)
+        t = _LOOKALIKE_SRC.decode(codec)
+        if t.encode(codec) != _LOOKALIKE_SRC or any(ord(c) < 32 or 127 <= ord(c) < 160 for c in t) or label in ("utf-8", "unknown-8bit"):
+            return None
+        return t
+    except (UnicodeError, NotImplementedError):
+        return None
+
+
+def _subject_domain() -> list:
+    """Subjects written as encoded-words (B and Q) in every octet charset x every sample the charset can encode."""
+    out = []
+    for label in DOM["charset"]:
+        if label in mail.WIDE_CHARSETS or label in ("unknown-8bit", "us-ascii", "US-ASCII"):
+            continue
+        for ti in range(1, len(TEXTS)):
+            t = sample_text(ti, label)
+            if t is None:
+                continue
+            try:
+                t.encode(mail.charset_codec(label))
+            except UnicodeError:
+                continue
+            for enc in ("b", "q"):
+                out.append(["cs-%s:%s" % (enc, label), _TT["H7"] + " " + t + " " + _TT["H8"]])
+    return out
+
+
+DOM["subject"] = list(DOM["subject"]) + _subject_domain()
+
 ATOM_NAMES = list(ATOMS) + ["docx", "docx-octet", "docx-noname", "docx-2231", "docx-noext", "txt-utf8", "html-as-plain", "csv-as-xls"]
 ATT_STRUCTS = [3, 4, 6, 7]          # mixed-alt-att, mixed-plain-att-att, mixed-mixed, rfc822-attachment
 PAIR_ALPHA = ["txt", "docx", "bin256", "noname"]
@@ -130,8 +208,21 @@ def to_spec(cs: dict) -> dict:
     for k, v in cs.items():
         if k == "attachments":
             spec[k] = [copy.deepcopy(atom(a)) for a in v]
+        elif k == "text":
+            continue
         else:
             spec[k] = copy.deepcopy(DOM[k][v])
+    if cs.get("text"):
+        if "body_plain" in cs or "body_html" in cs:
+            raise NotImplementedError("text together with body_plain / body_html")
+        t = sample_text(cs["text"], DOM["charset"][cs.get("charset", 0)])
+        if t is None:
+            raise NotImplementedError("no such sample for this charset")
+        st = DOM["structure"][cs.get("structure", 0)]
+        if st in mail.HAS_PLAIN:
+            spec["body_plain"] = "%s %s %s\n%s\n" % (_TT["B7"], t, _TT["B8"], _TT["B9"])
+        if st in mail.HAS_HTML:
+            spec["body_html"] = "<html><body><p>%s %s <b>%s</b></p></body></html>\n" % (_TT["B7"], t, _TT["B8"])
     return spec
 
 
@@ -143,13 +234,42 @@ def expressible(cs: dict) -> bool:
         return False
 
 
+def charset_specs(tier: str) -> list:
+    """Every charset label x every sample text x every transfer encoding (quick: structure alternative, CRLF; thorough: x every
+    structure x both line ends)."""
+    out = []
+    sts = [2] if tier == "quick" else list(range(len(DOM["structure"])))
+    les = [0] if tier == "quick" else list(range(len(DOM["line_end"])))
+    for c in range(len(DOM["charset"])):
+        for ti in range(1, len(TEXTS)):
+            for cte in range(len(DOM["cte"])):
+                for st in sts:
+                    for le in les:
+                        x = {"structure": st, "charset": c, "cte": cte, "line_end": le, "text": ti}
+                        out.append({k: v for k, v in x.items() if v})
+    return [c for c in out if expressible(c)]
+
+
+def subject_charset_specs(tier: str) -> list:
+    """Every generated subject (charset x sample x B/Q encoded-words), alone (thorough: also x body charset = the same label)."""
+    out = []
+    for i in range(BASE_LEN["subject"], len(DOM["subject"])):
+        out.append({"subject": i})
+        if tier != "quick":
+            label = DOM["subject"][i][0].split(":", 1)[1]
+            c = DOM["charset"].index(label)
+            if c:
+                out.append({"subject": i, "charset": c, "text": 1})
+    return [c for c in out if expressible(c)]
+
+
 # ----------------------------------------------------------------------------------------------------------------------
 # enumeration
 
 def base_specs(tier: str) -> list:
     """Case-specs of the <=2-deviation space (quick: d<=1 plus the 2-deviations involving structure or charset)."""
     out = [{}]
-    vals = {k: (ATT_DOMAIN if k == "attachments" else list(range(len(DOM[k])))) for k in DIMS}
+    vals = {k: (ATT_DOMAIN if k == "attachments" else list(range(BASE_LEN[k]))) for k in DIMS}
     for k in DIMS:
         for v in vals[k][1:]:
             out.append({k: v})
@@ -169,7 +289,7 @@ def att_specs(tier: str) -> list:
     for k in DIMS:
         if k in ("structure", "attachments"):
             continue
-        for v in range(1, len(DOM[k])):
+        for v in range(1, BASE_LEN[k]):
             others.append((k, v))
     for lst in att_lists():
         for st in ATT_STRUCTS:
@@ -189,7 +309,7 @@ def inner_specs(tier: str) -> list:
         for k in DIMS:
             if k in ("structure", "attachments"):
                 continue
-            for v in range(1, len(DOM[k])):
+            for v in range(1, BASE_LEN[k]):
                 if tier == "quick" and not ((k, v) in (("body_plain", 6), ("line_end", 1), ("cte", 3))):
                     continue
                 out.append({"structure": 7, "inner": i, k: v})
@@ -202,7 +322,7 @@ def decoding_specs(tier: str) -> list:
     out = []
     bodies = [0] if tier == "quick" else [0, 2, 3]
     for st in range(len(DOM["structure"])):
-        for cs_ in range(len(DOM["charset"])):
+        for cs_ in range(BASE_LEN["charset"]):
             for cte in range(len(DOM["cte"])):
                 for le in range(len(DOM["line_end"])):
                     for b in bodies:
@@ -231,15 +351,18 @@ def all_cases(tier: str) -> list:
     singles = base_specs(tier)
     atts = att_specs(tier)
     seen = set()
-    for cs in singles + atts + decoding_specs(tier) + inner_specs(tier):
+    main = singles + atts + decoding_specs(tier) + inner_specs(tier)
+    fam = charset_specs(tier) + subject_charset_specs(tier)
+    for n, cs in enumerate(main + fam):
         key = json.dumps(cs, sort_keys=True)
         if key in seen:
             continue
         seen.add(key)
         cases.append(("eml", {"spec": cs}))
-        for sep in SEPS:
+        # the charset families: quick reads the mailbox in its standard separator form only
+        for sep in (SEPS[:1] if tier == "quick" and n >= len(main) else SEPS):
             cases.append(("mbox", {"specs": [cs], "sep": sep, "flb": None}))
-        if len(cs) <= 1:
+        if len(cs) <= 1 and n < len(main):
             for sep in SEPS:
                 for flb in FLBS[1:]:
                     c = {"specs": [cs], "sep": sep, "flb": flb}
@@ -869,10 +992,16 @@ def run(ctx):
            "rule": "every message spec with <= 2 deviating dimensions over the 17-dimension grammar of verif.gen.mail (quick: 2-deviations "
                    "only with structure or charset), plus attachment lists (15 atoms as singletons, all ordered pairs over {txt, docx, "
                    "bin256, noname}, the permutations of [txt, docx, bin256]) x 4 attachment-bearing structures (thorough: x one more "
-                   "deviation), plus the full product structure x charset x transfer encoding x line end (thorough: x 3 body texts), 4 embedded-message variants of rfc822-attachment (x one more deviation); each spec as .eml and as single-message mbox x {standard, no-blank-line, crlf}; the <=1-deviation specs also "
+                   "deviation), plus the full product structure x charset x transfer encoding x line end (thorough: x 3 body texts), 4 embedded-message variants of rfc822-attachment (x one more deviation); "
+                   "the charset family: %d charset labels x %d sample texts x 4 transfer encodings where encodable / carriable (quick: structure "
+                   "alternative, CRLF; thorough: x 8 structures x 2 line ends) and %d subjects written as B/Q encoded-words in every octet charset "
+                   "(thorough: also with the body in that charset), quick: as .eml and standard mbox only; each spec as .eml and as single-message mbox x {standard, no-blank-line, crlf}; the <=1-deviation specs also "
                    "with the escaped / unescaped From-line body variant; all ordered pairs and triples over a 6-spec alphabet x 3 separators x "
                    "3 From-line variants; the empty mailbox; 2 .msg fixtures. distinct_nontrivial = distinct (format, observed shape, "
-                   "violated clauses) classes",
+                   "violated clauses) classes" % (len(DOM["charset"]), len(TEXTS) - 1, len(DOM["subject"]) - BASE_LEN["subject"]),
+           "bounds": {"charset_labels": len(DOM["charset"]), "sample_texts": len(TEXTS) - 1, "transfer_encodings": len(DOM["cte"]),
+                      "charset_family_specs": sum(1 for f, c in cases if f == "eml" and "text" in c["spec"]),
+                      "subject_charset_specs": sum(1 for f, c in cases if f == "eml" and c["spec"].get("subject", 0) >= BASE_LEN["subject"])},
            "message_specs": nsingle, "per_format": per_fmt, "sub_checks": checks, "outcomes": dict(sorted(outcomes.items(), key=lambda kv: -kv[1])[:80]),
            "samples": samples}
     assumptions = [
